@@ -20,6 +20,16 @@ PY = "/venv/bin/python"
 if REPO not in sys.path:
     sys.path.insert(0, REPO)
 
+# The planners give every solver model multiprocessing.cpu_count() threads.  The checks run 16 worker processes side by
+# side on tiny models: 16 x 16 solver threads only fight each other (a thorough shard was observed spinning in
+# sched_yield inside GRBoptimize for hours of CPU time).  One thread per model in the harness' processes; this changes the
+# solver's parallelism, nothing the properties speak about.
+import multiprocessing as _mp  # noqa: E402
+
+_SOLVER_THREADS = int(os.environ.get("VERIF_SOLVER_THREADS", "1"))
+if _SOLVER_THREADS > 0:
+    _mp.cpu_count = lambda: _SOLVER_THREADS
+
 
 # the documented priority of simultaneous events (simulator.py, EventType): events that
 # free resources first.  Written down here by name so that the monitors do not follow a
